@@ -1,3 +1,5 @@
+//go:build c16proj
+
 // c16: engine for property C16 (ahead-of-time compilation preserves behaviour).
 // This package is NOT built inside the harness module: checks/C16.py copies these sources into
 // .build/C16/proj together with files generated on every run —
